@@ -62,6 +62,8 @@ impl ClockHandle {
 		// immediately after a stop don't errantly get the previous
 		// clock time
 		self.shared.ticks.store(0, Ordering::SeqCst);
+		#[cfg(kira_verif)]
+		crate::verif::yield_point("ClockHandle::stop between the ticks store and the fraction store");
 		self.shared
 			.fractional_position
 			.store(0.0f64.to_bits(), Ordering::SeqCst);
